@@ -307,13 +307,13 @@ Lemma upd_upd_const {A} (l : list A) i (f : A -> A) (y : A) :
   upd (upd l i f) i (fun _ => y) = upd l i (fun _ => y).
 Proof. revert i; induction l as [|x l IH]; intros [|i]; cbn; try reflexivity. f_equal. apply IH. Qed.
 
-Lemma foi_run_case3_present esz lsz s k v p0 e m ix :
+Lemma foi_run_case3_present esz lsz s k v e m ix :
   Inv (nodes s) (root s) -> k < K64 ->
-  Walk (nodes s) k None (root s) (FCase3 e m ix) -> p0 = tt ->
+  Walk (nodes s) k None (root s) (FCase3 e m ix) ->
   N.testbit m ix = true ->
   find_or_insert esz lsz s k v = Ok (s, ((e, ix), false)).
 Proof.
-  intros I Hk W _ Hb. destruct s as [H rt lg]. cbn [nodes root rlog] in *.
+  intros I Hk W Hb. destruct s as [H rt lg]. cbn [nodes root rlog] in *.
   unfold find_or_insert, foi_prog. cbn [nodes root rlog].
   rewrite run_lift. rewrite (walk_foi H rt k I Hk None rt _ W 17 (fuel_ok_root H rt I)). cbn [bind].
   rewrite Hb. reflexivity.
